@@ -522,6 +522,8 @@ pub fn run_write_script(version: u8, max_buf: Option<u32>, script: &[WOp], ctl: 
             let mut flush_ok_slot: Option<usize> = None;
             // a growing set_len that returned Err: (stream name index, length before)
             let mut grow_failed: Option<(usize, u64)> = None;
+            // a growing set_len that returned Ok: (stream name index, old length, new length)
+            let mut grew_ok: Option<(usize, u64, u64)> = None;
             let res: Option<std::io::Result<()>> = match op {
                 WOp::CreateStorage { name } => {
                     let n = *name as usize % WNAMES.len();
@@ -678,6 +680,9 @@ pub fn run_write_script(version: u8, max_buf: Option<u32>, script: &[WOp], ctl: 
                                     if r.is_err() && new > cur {
                                         grow_failed = Some((h.name, cur));
                                     }
+                                    if r.is_ok() && new > cur {
+                                        grew_ok = Some((h.name, cur, new));
+                                    }
                                     r
                                 }
                                 WOp::Read { n, .. } => {
@@ -714,6 +719,31 @@ pub fn run_write_script(version: u8, max_buf: Option<u32>, script: &[WOp], ctl: 
                     // (a) a fault during this call must have been reported
                     if fired_here {
                         return Err(Fail::new(format!("write_fault|{}|fault_swallowed", wop_kind(op)), format!("a write/seek/flush fault fired during {:?} but the call returned Ok", op)));
+                    }
+                    // C08's clause after earlier faults: the range gained by a successful
+                    // set_len reads as zero (a fresh handle on the live object)
+                    if let Some((name, old_len, new_len)) = grew_ok {
+                        let enabled = {
+                            let mut g = ctl.lock().unwrap();
+                            let e = g.faults_enabled;
+                            g.faults_enabled = false;
+                            e
+                        };
+                        let got = guard("readback", || -> std::io::Result<Vec<u8>> {
+                            let mut f = c.open_stream(WNAMES[name])?;
+                            let mut v = Vec::new();
+                            f.read_to_end(&mut v)?;
+                            Ok(v)
+                        })?;
+                        ctl.lock().unwrap().faults_enabled = enabled;
+                        if let Ok(v) = got {
+                            let hi = (new_len as usize).min(v.len());
+                            if (old_len as usize) < hi {
+                                if let Some(i) = v[old_len as usize..hi].iter().position(|&b| b != 0) {
+                                    return Err(Fail::new("write_fault|set_len_ok|grown_nonzero", format!("set_len on {} grew the stream {} -> {} (Ok) but byte {} of the gained range reads {:#x}", WNAMES[name], old_len, new_len, old_len as usize + i, v[old_len as usize + i])));
+                                }
+                            }
+                        }
                     }
                     // (c) successful flush => everything accepted is readable through a fresh handle
                     if let Some(s) = flush_ok_slot.filter(|&s| !handles[s].as_ref().unwrap().accepted.is_empty()) {
